@@ -505,6 +505,10 @@ func (g *G) stmt(s *scope, inLoop bool) []string {
 		}
 		return []string{g.IntExpr(s, 1)}
 	default: // call for effect
+		if gs := g.defsOf(Gen); len(gs) > 0 && g.T.Draw(4) == 0 {
+			g.feat("stmt.naked_generator_call")
+			return []string{g.callOf(gs[g.T.Draw(len(gs))], s)}
+		}
 		ps := g.defsOf(Proc)
 		if len(ps) > 0 {
 			g.feat("stmt.proc_call")
@@ -771,7 +775,13 @@ func (g *G) DefGen() Def {
 		s.used["h"] = true
 		n := 1 + g.T.Draw(3)
 		for i := 0; i < n; i++ {
-			lines = append(lines, "h("+g.lit()+")")
+			if g.T.Bool() {
+				// the value of the helper's yield expression is yielded again
+				feats = append(feats, "gen.yield_value_of_yield")
+				lines = append(lines, g.yieldLines(s, "h("+g.lit()+")")...)
+			} else {
+				lines = append(lines, "h("+g.lit()+")")
+			}
 		}
 	default:
 		feats = append(feats, "gen.freeform")
